@@ -286,6 +286,18 @@ class PlanJoinTablesQuery:
         query_in.targets = query_traversal(query_in.targets, find_selects)
         query_traversal(query_in.where, find_selects)
 
+        # and in join conditions
+        def plan_condition_selects(node):
+            if isinstance(node, Join):
+                plan_condition_selects(node.left)
+                plan_condition_selects(node.right)
+                if node.condition is not None:
+                    node_out = query_traversal(node.condition, find_selects)
+                    if node_out is not None:
+                        node.condition = node_out
+
+        plan_condition_selects(query_in.from_table)
+
         query = copy.deepcopy(query_in)
 
         # replace sub selects, with identifiers with links to original selects
